@@ -61,6 +61,10 @@ func (jr *JSONResource) Load() ([]byte, error) {
 
 		return nil, err
 	}
+	if len(bytes.TrimSpace(data)) == 0 {
+
+		return nil, errors.New("empty JSON input")
+	}
 	firstRune := string(bytes.TrimSpace(data)[0])
 
 	var ruleSet string
